@@ -76,6 +76,7 @@ func gen(prop, tier string, r *Rng, out *bufio.Writer, st *Stats) {
 		genC01Zeros(w, r, tier)
 		genChLen(g, r, tier, 1)
 		genHugeRW(g, r, tier)
+		genStripedAliased(w, r, tier)
 	case "C02":
 		genC02(w, r, tier)
 		genC02Long(w, r, tier)
@@ -85,21 +86,25 @@ func gen(prop, tier string, r *Rng, out *bufio.Writer, st *Stats) {
 		genC03Thresholds(w, r, tier)
 		genBigRef(g, r, tier)
 		genHugeAppend(g, r, tier)
+		genGrowMany(g, r, tier)
 	case "C04":
 		genC04(w, r, tier)
 		genC04Long(w, r, tier)
 		genHugeLength(g, r, tier)
+		genGiant(g, "C04")
 	case "C05":
 		genC05(w, r, tier)
 		genC05Long(w, r, tier)
 		genF2F(g, r, tier)
 		genHugeConv(g, r, tier)
+		genGiant(g, "C05")
 	case "C06":
 		genQuant(g, r, tier, false)
 		if tier == "thorough" && os.Getenv("VERIF_NO_SWEEP32") == "" {
 			genQuantSweep32(g, false)
 		}
 	case "C07":
+		genGiant(g, "C07")
 		genQuant(g, r, tier, true)
 		if tier == "thorough" && os.Getenv("VERIF_NO_SWEEP32") == "" {
 			genQuantSweep32(g, true)
@@ -118,14 +123,17 @@ func gen(prop, tier string, r *Rng, out *bufio.Writer, st *Stats) {
 		genC10(w, r, tier)
 		genC10Routes(w, r, tier)
 		genHugePool(g, r, tier)
+		genBulkPool(g, r, tier)
 	case "C12":
 		genC12(w, r, tier)
 		genC12Overlap(w, r, tier)
 		genBigRef(g, r, tier)
 		genHugeAppend(g, r, tier)
+		genGrowMany(g, r, tier)
 	case "C13":
 		genC13(w, r, tier)
 		genManyAllocs(g, r, tier)
+		genLocalTypes(g)
 	case "C14":
 		genC14(w, r, tier)
 		genC14Long(w, r, tier)
